@@ -131,6 +131,21 @@ func (m *GRPCModStream) Read() (*spb.ModifyResponse, error) {
 
 func (m *GRPCModStream) CloseSend() { m.st.CloseSend() }
 
+// AwaitEnd reads until the RPC ends and returns its status (nil = OK).
+func (m *GRPCModStream) AwaitEnd() (error, bool) {
+	for {
+		_, err := m.Read()
+		switch {
+		case err == ErrWatchdog:
+			return nil, false
+		case err == io.EOF:
+			return nil, true
+		case err != nil:
+			return err, true
+		}
+	}
+}
+
 // Close releases the connection.
 func (m *GRPCModStream) Close() {
 	m.Cancel()
